@@ -27,6 +27,12 @@ chk("C15",
     "Coq proof (induction over the candidate list with a running-credit invariant) + regenerated guards tie + vm_compute correspondence",
     "DESIGN.md §4 C15")
 
+chk("C03",
+    "Coq theorems: the verdict function of check_async is Y/X/N/abandoned exactly as the property states, for all observations and registered values (size 0 included); the chunked hash loop feeds every byte exactly once in order for every content length, block size and chunk size, hence equals one-shot hashing for any incremental hash; every digest spelling the CLI accepts is 32 hex digits stored in canonical lower case with the same value, and on canonical digests the daemon's string comparison decides value equality. Tie: guards, verdict letters and loop constants re-translated from /repo each run (T1); real file create/modify, real check_async on real files (all damage kinds, boundary sizes), and the real _md5sum_file source (real and substituted constants, recording hash) are compared with the model evaluated in Coq (T2); 32 MiB chunk boundary by monitor against hashlib.",
+    "Coq kernel+VM; translator fragment; hashlib's incremental law and lower-case hexdigest are hypotheses; hash time-outs outside the theorem's premise",
+    "Coq proof (case analysis, induction over the read loop, injectivity of hex value) + regenerated guards tie + vm_compute correspondence",
+    "DESIGN.md §4 C03")
+
 ALL = [f"C{i:02d}" for i in range(1, 21)]
 NA_REASON = "check not yet built in this revision (planned: see DESIGN.md §7); nothing is claimed for it"
 
